@@ -10,7 +10,7 @@ import (
 
 func init() { Registry["C05"] = runC05 }
 
-const explanationC05 = "Decides structural necessary conditions of C05: (R05.1) the generated error encoder falls back to the default encoder for undeclared errors and for errors without a name, and every declared arm returns (template parse tree); (R05.2/R05.3) the default error encoder writes exactly one response per path in the order negotiate-encoder ≺ formatter ≺ WriteHeader(status of the formatted response) ≺ Encode, and every encodeError in the handler template is followed by return; (R05.4) the default HTTP status table over all flag vectors × special name; (R05.5) non-service errors are re-encoded as goa.Fault in both transports and the error constructors pass the documented (timeout, temporary, fault) triples to fields of the same name; (R05.6) like-named field fidelity of the wire forms; (R05.7) the validation/decoding error constructors are permanent errors with the standard names; (R05.8) the error name→response table built by HTTPEndpointExpr.Prepare has no stale search flag, and the goa-error header constant is shared by encoder and decoder templates; (R05.9) no template range body (error arms, response arms) replaces its element by a constant index into the collection it iterates; (R05.10) error attributes in headers/cookies use the wire name on both sides (shared R02.4); shared R15.1 (client codec choice) and R18.1 (merging never drops a recorded error). NOT decided: name-based dispatch for arbitrary designs end to end (needs execution of generated code), equality of attribute values across the wire."
+const explanationC05 = "Decides structural necessary conditions of C05: (R05.1) the generated error encoder falls back to the default encoder for undeclared errors and for errors without a name, and every declared arm returns (template parse tree); (R05.2/R05.3) the default error encoder writes exactly one response per path in the order negotiate-encoder ≺ formatter ≺ WriteHeader(status of the formatted response) ≺ Encode, and every encodeError in the handler template is followed by return; (R05.4) the default HTTP status table over all flag vectors × special name; (R05.5) non-service errors are re-encoded as goa.Fault in both transports and the error constructors pass the documented (timeout, temporary, fault) triples to fields of the same name; (R05.6) like-named field fidelity of the wire forms; (R05.7) the validation/decoding error constructors are permanent errors with the standard names; (R05.8) the error name→response table built by HTTPEndpointExpr.Prepare has no stale search flag, and the goa-error header constant is shared by encoder and decoder templates; (R05.9) no template range body (error arms, response arms) replaces its element by a constant index into the collection it iterates; (R05.10) error attributes in headers/cookies use the wire name on both sides (shared R02.4); shared R15.1 (client codec choice) and R18.1 (merging never drops a recorded error). shared R02.1 (copies of a mapped attribute keep both name tables inverse of each other: inherited error responses keep their header/cookie names). (R05.11) no status is assigned to a response after its DSL function has run (shared with C03). NOT decided: name-based dispatch for arbitrary designs end to end (needs execution of generated code), equality of attribute values across the wire."
 
 func runC05(c *an.Ctx) string {
 	r05ErrorEncoder(c)
@@ -19,9 +19,11 @@ func runC05(c *an.Ctx) string {
 	r05Constructors(c)
 	r05Prepare(c)
 	r05Templates(c)
-	r024WireKeys(c, "R05.10") // error attributes in headers/cookies use the wire name on both sides (shared with C02/C03)
-	r15ResponseDecoder(c)     // shared with C15 (rule id R15.1): the client decodes the error body with the codec of the announced type
-	r181MergeErrors(c)        // shared with C18 (rule id R18.1): merging never drops an error already recorded
+	r024WireKeys(c, "R05.10")     // error attributes in headers/cookies use the wire name on both sides (shared with C02/C03)
+	r15ResponseDecoder(c)         // shared with C15 (rule id R15.1): the client decodes the error body with the codec of the announced type
+	r181MergeErrors(c)            // shared with C18 (rule id R18.1): merging never drops an error already recorded
+	r021NameTables(c)             // shared with C02 (rule id R02.1): an inherited error response keeps its attribute→header/cookie renames when it is copied
+	dslDefaultStatus(c, "R05.11") // shared with C03/R03.1: the default status of an error response (400) never overwrites a Code() set in its DSL
 	return explanationC05
 }
 
@@ -31,30 +33,50 @@ func r05ErrorEncoder(c *an.Ctx) {
 	if f == nil {
 		return
 	}
-	t := tableFn(c, anon(c.SSAFunc(f), 0), 0)
+	rf := anon(c.SSAFunc(f), 0) // the request function: a closure, or a declared function/method used as a value
+	t := tableFn(c, rf, 0)
 	if t == nil {
 		c.Undecidedf(rule, f.Name+"$request", f.Decl.Pos(), "cannot table the request closure")
 		return
 	}
+	// its parameters by role (a method has its receiver first)
+	pctx, pw, perr := "", "", ""
+	for i, prm := range rf.Params {
+		switch prm.Type().String() {
+		case "context.Context":
+			pctx = fmt.Sprintf("p%d", i)
+		case "net/http.ResponseWriter":
+			pw = fmt.Sprintf("p%d", i)
+		case "error":
+			perr = fmt.Sprintf("p%d", i)
+		}
+	}
+	if pctx == "" || pw == "" || perr == "" {
+		c.Undecidedf(rule, f.Name+"$request", f.Decl.Pos(), "the request function does not take (context, response writer, error)")
+		return
+	}
+	// the two function values it calls, whatever holds them (captured variables, fields of the receiver)
+	reEnc := regexp.MustCompile(`^dyn:([^()]+)\(` + pctx + `, ` + pw + `\)$`)
+	reFmt := regexp.MustCompile(`^dyn:([^()]+)\(` + pctx + `, ` + perr + `\)$`)
 	var probs []string
 	for i := range t.Paths {
 		p := &t.Paths[i]
 		enc, fm, wh, encode := -1, -1, -1, -1
 		nWH := 0
-		var whArg string
+		var whArg, encCall, fmtCall string
 		for j, cl := range p.CallEffects() {
 			switch {
-			case cl == "dyn:free:⟨outer.p0⟩(p0, p1)":
-				enc = j
-			case cl == "dyn:free:⟨outer.p1*⟩(p0, p2)":
-				fm = j
-			case strings.HasPrefix(cl, "p1.WriteHeader("):
+			case reEnc.MatchString(cl) && encCall == "":
+				enc, encCall = j, cl
+			case reFmt.MatchString(cl) && fmtCall == "":
+				fm, fmtCall = j, cl
+			case strings.HasPrefix(cl, pw+".WriteHeader("):
 				wh = j
 				nWH++
-				whArg = strings.TrimSuffix(strings.TrimPrefix(cl, "p1.WriteHeader("), ")")
-			case strings.HasPrefix(cl, "dyn:free:⟨outer.p0⟩(p0, p1).Encode("):
+				whArg = strings.TrimSuffix(strings.TrimPrefix(cl, pw+".WriteHeader("), ")")
+			case encCall != "" && strings.HasPrefix(cl, encCall+".Encode("):
 				encode = j
-				if cl != "dyn:free:⟨outer.p0⟩(p0, p1).Encode(dyn:free:⟨outer.p1*⟩(p0, p2))" {
+				if cl != encCall+".Encode("+fmtCall+")" {
 					probs = append(probs, "the body encoded is not the formatted error response: "+cl)
 				}
 			}
@@ -65,15 +87,15 @@ func r05ErrorEncoder(c *an.Ctx) {
 		if !(enc >= 0 && enc < wh && fm >= 0 && fm < wh && wh < encode) {
 			probs = append(probs, fmt.Sprintf("order encoder(%d), formatter(%d) ≺ WriteHeader(%d) ≺ Encode(%d) violated", enc, fm, wh, encode))
 		}
-		if whArg != "dyn:free:⟨outer.p1*⟩(p0, p2).StatusCode()" {
+		if fmtCall == "" || whArg != fmtCall+".StatusCode()" {
 			probs = append(probs, "the status written is "+whArg+", not the status of the formatted response")
 		}
-		if len(p.Ret) != 1 || !strings.HasPrefix(p.Ret[0], "dyn:free:⟨outer.p0⟩(p0, p1).Encode(") {
+		if len(p.Ret) != 1 || encCall == "" || !strings.HasPrefix(p.Ret[0], encCall+".Encode(") {
 			probs = append(probs, "the encoding error is not returned")
 		}
 		for _, e := range p.Effects {
-			if e.Kind == "store" && strings.HasPrefix(e.Term, "free:") {
-				probs = append(probs, "the request closure assigns shared variable "+e.Term)
+			if e.Kind == "store" && (strings.HasPrefix(e.Term, "free:") || strings.HasPrefix(e.Term, "p0.")) {
+				probs = append(probs, "the request function assigns shared state "+e.Term)
 			}
 		}
 	}
@@ -103,40 +125,47 @@ func r05Constructors(c *an.Ctx) {
 		"Fault": "false, false, true", "PermanentError": "false, false, false", "TemporaryError": "false, true, false",
 		"PermanentTimeoutError": "true, false, false", "TemporaryTimeoutError": "true, true, false",
 	}
+	// each constructor, with newError entered, builds a ServiceError whose Name is the name it was given and
+	// whose flags are the documented constants (however the flags travel to newError: three booleans, a
+	// struct, a bit set); the ID is fresh and the message formatted from format and arguments
 	for _, name := range sortedKeys(triples) {
-		f, t := tableOf(c, rule, "pkg", name, 0)
-		if t == nil {
+		f := c.MustFunc(rule, "pkg", name)
+		if f == nil {
 			continue
 		}
-		want := triples[name]
-		ok := len(t.Paths) == 1 && len(t.Paths[0].Ret) == 1
-		got := ""
-		if ok {
-			got = t.Paths[0].Ret[0]
-			if name == "Fault" {
-				ok = got == `pkg.newError("fault", `+want+`, p0, p1)`
-			} else {
-				ok = got == "pkg.newError(p0, "+want+", p1, p2)"
-			}
+		t := an.BuildPathTable(c.SSAFunc(f), an.PathOpts{Inline: map[string]bool{"pkg.newError": true}})
+		c.Stats["paths_enumerated"] += len(t.Paths)
+		c.Stats["functions_tabled"]++
+		if t.Truncated || len(t.Paths) != 1 || len(t.Paths[0].Ret) != 1 {
+			c.Undecidedf(rule, f.Name, f.Decl.Pos(), "the constructor is not a single path returning one value (%d paths)", len(t.Paths))
+			continue
 		}
-		c.Check(ok, rule, f.Name, f.Decl.Pos(), "passes (timeout, temporary, fault) = ("+want+") to newError", "constructor builds "+got+"; expected newError(name, "+want+", format, v...)")
-	}
-	// newError / NewServiceError: parameters reach the like-named fields
-	if f, t := tableOf(c, rule, "pkg", "newError", 0); t != nil {
 		p := &t.Paths[0]
+		want := strings.Split(triples[name], ", ")
+		wantName, fmtParam := "p0", "p1"
+		if name == "Fault" {
+			wantName, fmtParam = `"fault"`, "p0"
+		}
 		var probs []string
-		for fld, want := range map[string]string{"Name": "p0", "Timeout": "p1", "Temporary": "p2", "Fault": "p3"} {
-			if v, _ := p.Field(p.Ret[0], fld); v != want {
-				probs = append(probs, fmt.Sprintf("%s is initialised from %q", fld, v))
+		for i, fld := range []string{"Timeout", "Temporary", "Fault"} {
+			v, _ := p.Field(p.Ret[0], fld)
+			if v == "" {
+				v = "false" // a field the literal does not mention keeps its zero value
+			}
+			if v != want[i] {
+				probs = append(probs, fmt.Sprintf("%s = %s, documented %s", fld, v, want[i]))
 			}
 		}
-		if v, _ := p.Field(p.Ret[0], "Message"); !strings.HasPrefix(v, "fmt.Sprintf(p4, ") {
+		if v, _ := p.Field(p.Ret[0], "Name"); v != wantName {
+			probs = append(probs, "Name is "+v)
+		}
+		if v, _ := p.Field(p.Ret[0], "Message"); !strings.HasPrefix(v, "fmt.Sprintf("+fmtParam+", ") {
 			probs = append(probs, "Message is "+v)
 		}
 		if v, _ := p.Field(p.Ret[0], "ID"); v != "pkg.NewErrorID()" {
 			probs = append(probs, "ID is "+v)
 		}
-		report(c, rule, f.Name, f, probs, "name, timeout, temporary and fault reach the fields of the same name; fresh ID; formatted message")
+		report(c, rule, f.Name, f, probs, "builds a ServiceError named as asked with (timeout, temporary, fault) = ("+triples[name]+"), a fresh ID and the formatted message")
 	}
 	if f, t := tableOf(c, rule, "pkg", "NewServiceError", 0); t != nil {
 		p := &t.Paths[0]
